@@ -90,6 +90,15 @@ def step (m : M) (tok : String) : M × String :=
           | some none => "G!"
           | some (some v) => "G" ++ v)
     | none => (m, "G-")
+  | ["gm", n, v] =>
+    match normName n with
+    | some k =>
+      let (m', r) := setFirst m k v
+      (m', match r with
+           | none => "M-"
+           | some none => "M!"
+           | some (some o) => "M" ++ o)
+    | none => (m, "M-")
   | ["ga", n] =>
     match normName n with
     | some k => (m, "A[" ++ showVals (getAll m k) ++ "]")
@@ -107,7 +116,7 @@ def step (m : M) (tok : String) : M × String :=
     (m, "J" ++ showState (groupPairs xs) ++ "h=" ++ showNats hs ++ "u=" ++ b01 u)
   | ["ks"] =>
     let names := (sortEntries m).map (·.1)
-    let k := m.length
+    let k := (keys m).length
     (m, "Y[" ++ joinWith "," names ++ "]h=" ++ showNats ((List.range (k + 1)).reverse ++ [0]))
   | ["hr"] =>
     -- HeaderMap → http::HeaderMap (FromIterator over into_iter) → HeaderMap (from_drain)
